@@ -125,8 +125,15 @@ def key_worker(task: Tuple) -> Dict[str, Any]:
                 acc.ob("unknown", f"{cfg}#p{i}(no small model)", key)
                 continue
             acc.ob("sat", f"{cfg}#p{i}", key)
+            # equal intern keys whose stored dimensions differ: on the real table both sides are the object
+            # registered first (C01's subject): a candidate only
+            dim_only = False
+            if comparable and isinstance(lhs, measured.Unit):
+                dk = c02.key_equal(lhs.dimension, rhs.dimension)[1]
+                dim_only = acc.P.check(p.cond, z3.Not(goal), z3.Not(dk))[0] == "sat" and \
+                    acc.P.check(p.cond, z3.Not(goal), dk)[0] == "unsat"
             acc.out["viol"].append((f"C11:key:{lawname}", f"{cfg}: keys differ ({why}) at {sm}",
-                                    key_replay(lawname, law, bases, pb, sm, False)))
+                                    key_replay(lawname, law, bases, pb, sm, False)) + (("soft",) if dim_only else ()))
     # same-base products / quotients add / subtract exponents exactly
     acc.sample({"config": cfg, "paths": len(ex.paths), "law": f"{law[0]}  is  {law[1]}"})
     return acc.finish()
@@ -276,7 +283,10 @@ def value_worker(task: Tuple) -> Dict[str, Any]:
                 acc.ob("unsat" if st == "unsat" else ("unknown" if st == "unknown" else "sat"),
                        f"{label}:{name}", (label, name))
                 if st == "sat":
-                    acc.out["viol"].append((f"C11:value:{name}:{pc}:{uc}", f"{name} fails for {label}", rp))
+                    # an exception met on a symbolic run may come from the table model (a unit the real table
+                    # already holds with its right dimension): confirmed by the replay or inconclusive
+                    acc.out["viol"].append((f"C11:value:{name}:{pc}:{uc}", f"{name} fails for {label}", rp) +
+                                           (("soft",) if "-raises-" in name else ()))
 
             def run(fn: Any) -> Any:
                 ex = explore(fn, max_paths=16)
